@@ -98,16 +98,12 @@ func checkerConstruction(c *Check, a *Anchors, rule string) {
 			continue
 		}
 		c.Fn(fb)
-		info := fb.Info()
 		stores := false
-		inspectBody(fb.Body, func(nd ast.Node) bool {
-			if kv, ok := nd.(*ast.KeyValueExpr); ok {
-				if id, ok := kv.Key.(*ast.Ident); ok && id.Name == "dry" && dryArgKind(info, fb, kv.Value) == "param" {
-					stores = true
-				}
+		for _, d := range c.P.dryFields() {
+			if d.ctor == fb {
+				stores = true // a field of the checker holds a value that differs between dry=true and dry=false
 			}
-			return true
-		})
+		}
 		c.Decide(stores, rule, "stores-param@"+fnDisplay(fb), fb.Decl.Pos(), "dry: <parameter>", nm+" does not store its dry parameter in the checker's dry field")
 	}
 	if fb := c.P.Func(PkgFingerprint, "", "WithDry"); fb != nil {
